@@ -300,6 +300,17 @@ def run(R):
                 "at most one BatchBase.flush() on any path of the method",
                 "two flushes can happen in one call", mcfg.fmt_path(p) if p else None)
     R.require_min("C05.EVENTS", 2)
+    # the hooks subscribers registered on live as long as the scheduler: only the constructor creates them.  A method that runs
+    # during the scheduler's life (reset() is also the stack-limit abort) and assigns a fresh hook drops every subscriber: later
+    # flushes fire their events into the void
+    ts = ro.TS
+    for hook in ("on_before_batch_flush", "on_after_batch_flush"):
+        writers = sorted(set(m.name for m in ts.methods.values() for recv, attr, node in q.attr_stores(m.node) if recv == "self" and attr == hook))
+        R.check(writers == ["__init__"], "C05.EVENTS", "%s.%s:writers" % (ts.qualname, hook), R.site(ts.module, ts.node),
+                "self.%s is created by the constructor only" % hook,
+                "self.%s is assigned in %s: a hook object created after construction replaces the one handlers subscribed to (reset() also runs when the "
+                "stack limit aborts a computation) - the before/after events of every later flush reach nobody" % (hook, ", ".join(w for w in writers if w != "__init__") or "no method at all"))
+    common.hook_dispatch(R, "C05.HOOK-DISPATCH", ("batching.BatchBase", "batching.BatchItemBase"))
 
     gp = ro.BatchBase.methods.get("get_priority")
     R.need(gp is not None, "anchor vanished: BatchBase.get_priority")
